@@ -641,6 +641,10 @@ func streamCLI(seed uint64, idx int) caseT {
 		return caseT{lines: []string{"XB " + g.r.pick([]string{"s", "f"}) + " " + hexField(expr) + " " + strconv.Itoa(n)}}
 	}
 	mode := g.r.pick([]string{"s", "f", "s", "f", "s", "f", "m", "a0", "a2"})
+	if idx%40 == 9 {
+		// standard input is the null device (not a pipe): empty input, nothing may be printed (line kind XD, implementation only)
+		return caseT{lines: []string{"XD " + hexField(expr)}}
+	}
 	return caseT{lines: []string{"X " + mode + " " + hexField(expr) + " " + hexField(input)}}
 }
 
